@@ -526,7 +526,28 @@ theorem relF_logonFinish (s : Sess) (m : InMsg) (h : N .onLogon) : RelF N S s (l
   unfold logonFinish
   rel_cases
 
-theorem relF_handleLogon {P : InMsg → Prop} (s : Sess) (m : InMsg) (hk : kindOf m = "A") (h : MsgHyp N S P s.cfg m)
+/-- what the policy must allow for one inbound Logon `m` processed in state `s` -/
+structure LogonHyp (N : Obs → Prop) (S : Store → Store → Prop) (s : Sess) (m : InMsg) : Prop where
+  cbA : NoEmpty m → ∀ s' : Sess, N (cbObs s' m)
+  onLogon : GateMsg s.cfg m → TimeGate s m → callbackVerdict m = none → N .onLogon
+  ro : ResetOK N S ∨ logonResetFlag m = false
+
+omit hp in
+theorem MsgHyp.logon {P : InMsg → Prop} {s : Sess} {m : InMsg} (h : MsgHyp N S P s.cfg m) (hk : kindOf m = "A") : LogonHyp N S s m :=
+  ⟨h.cbA hk, fun hg _ hv => h.onLogon hk hg hv, by
+    rcases h.ro with hro | hf
+    · exact Or.inl hro
+    · exact Or.inr (hf hk)⟩
+
+omit hp in
+theorem curResend_congr {a b : Sess} (h1 : a.st = b.st) (h2 : a.cfg = b.cfg) : curResend a = curResend b := by
+  unfold curResend; rw [h1, h2]
+
+omit hp in
+theorem timeGate_congr {a b : Sess} (m : InMsg) (h1 : a.st = b.st) (h2 : a.cfg = b.cfg) (h : TimeGate b m) : TimeGate a m := by
+  unfold TimeGate at h ⊢; rw [curResend_congr h1 h2, h2]; exact h
+
+theorem relF_handleLogon' (s : Sess) (m : InMsg) (h : LogonHyp N S s m)
     (hc : CfgHyp N S s.cfg) : RelF N S s (handleLogon s m).1 := by
   unfold handleLogon
   split
@@ -536,7 +557,7 @@ theorem relF_handleLogon {P : InMsg → Prop} (s : Sess) (m : InMsg) (hk : kindO
     simp only []
     rcases verifyAppImpl_cases s1 m with ⟨hne, he⟩ | ⟨_, r, he⟩
     · rw [he]
-      have h2 : RelF N S s (s1.emit (cbObs s1 m)) := h1.trans (RelF.emit _ _ (h.cbA hk hne s1))
+      have h2 : RelF N S s (s1.emit (cbObs s1 m)) := h1.trans (RelF.emit _ _ (h.cbA hne s1))
       generalize s1.emit (cbObs s1 m) = s2 at h2
       cases hcv : callbackVerdict m with
       | some r => exact h2
@@ -544,10 +565,7 @@ theorem relF_handleLogon {P : InMsg → Prop} (s : Sess) (m : InMsg) (hk : kindO
         simp only []
         generalize hs3 : (if ((if s2.cfg.initiator = true then false else s2.cfg.resetOnLogon) || logonResetFlag m && !s2.sentReset) = true
             then s2.storeReset else s2) = s3
-        have hflag : ResetOK N S ∨ logonResetFlag m = false := by
-          rcases h.ro with hro | hf
-          · exact Or.inl hro
-          · exact Or.inr (hf hk)
+        have hflag : ResetOK N S ∨ logonResetFlag m = false := h.ro
         have h3 : RelF N S s s3 := by
           rw [← hs3]
           by_cases hr : ((if s2.cfg.initiator = true then false else s2.cfg.resetOnLogon) || logonResetFlag m && !s2.sentReset) = true
@@ -567,10 +585,14 @@ theorem relF_handleLogon {P : InMsg → Prop} (s : Sess) (m : InMsg) (hk : kindO
         cases o2 with
         | some r => exact h3
         | none =>
-          obtain ⟨hb, hcc, _, _, _⟩ := hv2 rfl
+          obtain ⟨hb, hcc, htg, _, _⟩ := hv2 rfl
           rw [h3.cfg] at hb hcc
-          exact (h3.trans (relF_logonReply _ m _ hflag)).trans (relF_logonFinish _ m (h.onLogon hk ⟨hb, hcc, hne⟩ hcv))
+          have htg' : TimeGate s m := timeGate_congr m h3.st.symm h3.cfg.symm htg
+          exact (h3.trans (relF_logonReply _ m _ hflag)).trans (relF_logonFinish _ m (h.onLogon ⟨hb, hcc, hne⟩ htg' hcv))
     · rw [he]; exact h1
+
+theorem relF_handleLogon {P : InMsg → Prop} (s : Sess) (m : InMsg) (hk : kindOf m = "A") (h : MsgHyp N S P s.cfg m)
+    (hc : CfgHyp N S s.cfg) : RelF N S s (handleLogon s m).1 := relF_handleLogon' s m (h.logon hk) hc
 
 /-! ### dispatch -/
 
@@ -676,26 +698,36 @@ theorem relF_shutdownWithReason (s : Sess) (incr : Bool) : RelF N S s (shutdownW
   show RelF N S s (if incr = true then incrTarget (dropAndSend s (mkOut "5" [])) else dropAndSend s (mkOut "5" []))
   rel_peel
 
-theorem relF_handleLogon_eq {P : InMsg → Prop} {s : Sess} {m : InMsg} {r : Sess × Option LogonErr} (hr : handleLogon s m = r)
-    (hk : kindOf m = "A") (h : MsgHyp N S P s.cfg m) (hc : CfgHyp N S s.cfg) : RelF N S s r.1 := by
-  rw [← hr]; exact relF_handleLogon s m hk h hc
+theorem relF_handleLogon_eq {s : Sess} {m : InMsg} {r : Sess × Option LogonErr} (hr : handleLogon s m = r)
+    (h : LogonHyp N S s m) (hc : CfgHyp N S s.cfg) : RelF N S s r.1 := by
+  rw [← hr]; exact relF_handleLogon' s m h hc
 
-theorem hout_logonFixMsgIn {P : InMsg → Prop} (s : Sess) (m : InMsg) (h : MsgHyp N S P s.cfg m) (hc : CfgHyp N S s.cfg) :
-    HOut N S P s (logonFixMsgIn s m) := by
+omit hp in
+theorem logonFixMsgIn_plain (s : Sess) (m : InMsg) : stashOf (logonFixMsgIn s m).2 = [] := by
+  unfold logonFixMsgIn
+  repeat' split
+  all_goals rfl
+
+theorem relF_logonFixMsgIn' (s : Sess) (m : InMsg) (h : kindOf m = "A" → LogonHyp N S s m) (hc : CfgHyp N S s.cfg) :
+    RelF N S s (logonFixMsgIn s m).1 := by
   unfold logonFixMsgIn
   split
-  · exact ⟨RelF.refl s, stashOK_plain _ rfl⟩
+  · exact RelF.refl s
   · rename_i hk
     have hk' : kindOf m = "A" := by simpa using hk
     repeat' split
     all_goals (try dsimp only)
     all_goals (
-      have hh := relF_handleLogon_eq (by assumption : handleLogon s m = _) hk' h hc
+      have hh := relF_handleLogon_eq (by assumption : handleLogon s m = _) (h hk') hc
       first
-        | exact ⟨hh, stashOK_plain _ rfl⟩
-        | exact ⟨hh.trans (relF_shutdownWithReason _ _), stashOK_plain _ rfl⟩
-        | exact ⟨hh.trans (relF_sRR_eq (by assumption)), stashOK_plain _ rfl⟩
-        | exact ⟨hh.trans (relF_sendResendRequest _ _ _), stashOK_plain _ rfl⟩)
+        | exact hh
+        | exact hh.trans (relF_shutdownWithReason _ _)
+        | exact hh.trans (relF_sRR_eq (by assumption))
+        | exact hh.trans (relF_sendResendRequest _ _ _))
+
+theorem hout_logonFixMsgIn {P : InMsg → Prop} (s : Sess) (m : InMsg) (h : MsgHyp N S P s.cfg m) (hc : CfgHyp N S s.cfg) :
+    HOut N S P s (logonFixMsgIn s m) :=
+  ⟨relF_logonFixMsgIn' s m (fun hk => h.logon hk) hc, stashOK_plain _ (logonFixMsgIn_plain s m)⟩
 
 theorem hout_fixMsgInCore {P : InMsg → Prop} (s : Sess) (m : InMsg) (h : MsgHyp N S P s.cfg m) (hP : PoolHyp N S P s.cfg)
     (hc : CfgHyp N S s.cfg) (hs : StashOK P s.st) : HOut N S P s (fixMsgInCore s m) := by
